@@ -115,4 +115,31 @@ def inv : RefElem := RefElem.mk [(kReferenceType, "HasComponent".toList), (kIsFo
 example : parseRef (nsMapOf []) [("HasComponent".toList, ⟨0, .i, "47".toList⟩)] ⟨0, .i, "1".toList⟩ fwd =
     parseRef (nsMapOf []) [("HasComponent".toList, ⟨0, .i, "47".toList⟩)] ⟨0, .i, "2".toList⟩ inv := by decide +kernel
 
+
+theorem uniques_of_nodup {α} [DecidableEq α] (l : List α) (h : l.Nodup) : uniques l = l := by
+  induction l with
+  | nil => rfl
+  | cons a r ih =>
+    have hr := (List.nodup_cons.1 h)
+    simp only [uniques, ih hr.2]
+    congr 1
+    apply List.filter_eq_self.2
+    intro x hx
+    simp only [ne_eq, decide_eq_true_eq]
+    intro e; subst e; exact hr.1 hx
+
+/-- **the single-file entry point agrees with the list entry point**: for one document the references of
+    `parse_xml_files([file])` are exactly those of the document's own parse (`parse_xml(file)`), in the
+    same order — the second, global de-duplication changes nothing -/
+theorem single_file_refs (g : List Str) (d : Doc) (g1 : List Str) (p : ParsedDoc) (out : ParseOut)
+    (hd : parseDoc g d = .ok (g1, p)) (hf : parseFiles g [d] = .ok out) : out.refs = p.refs ∧ out.nodes = p.nodes ∧ out.models = p.models := by
+  unfold parseFiles at hf
+  simp only [List.cons_ne_nil, if_false, parseFilesAux, hd] at hf
+  simp only [Except.ok.injEq] at hf
+  subst hf
+  refine ⟨?_, by simp, by simp⟩
+  simp only [List.append_nil]
+  exact uniques_of_nodup _ (refs_nodup g d _ g1 p hd)
+
+
 end Opcua.C02
